@@ -670,11 +670,295 @@ pub fn check_node(case: &NodeCase, st: &mut Stats) -> Result<(), String> {
     })
 }
 
+
+// ---------------------------------------------------------------------------------------------
+// Part (c): a real node and SCRIPTED peers. The harness speaks the gossip protocol itself (real preface, noise and
+// handshake, a real multiplexer carrying hand-made RPC frames), so it decides when a peer announces which range,
+// sees the node's acknowledgement of every announcement, and sees every get_block request the moment it arrives.
+
+#[derive(Debug, Clone, Serialize, Deserialize, Hash)]
+pub struct PeerCase {
+    /// Certified blocks that exist.
+    blocks: usize,
+    /// The node's `max_block_queue_size`: how many blocks it asks for at once.
+    queue: usize,
+    /// The first peer's second announcement starts `prune_to` blocks later (its head is unchanged: it pruned).
+    prune_to: usize,
+    /// The first peer answers the requests it is holding in reverse order.
+    reverse: bool,
+}
+
+pub fn gen_peer(ch: &mut Choices) -> PeerCase {
+    let blocks = 3 + ch.below(6);
+    let queue = 1 + ch.below(3).min(blocks - 2);
+    // mostly beyond what the node has already asked for, so that a block of the pruned part is needed after the pruning
+    let prune_to = if ch.chance(4, 5) { (queue + 1 + ch.below(blocks)).min(blocks - 1) } else { 1 + ch.below(blocks - 1) };
+    PeerCase { blocks, queue, prune_to, reverse: ch.bool() }
+}
+
+fn pb_varint(out: &mut Vec<u8>, mut x: u64) {
+    loop {
+        let b = (x & 0x7f) as u8;
+        x >>= 7;
+        if x == 0 {
+            out.push(b);
+            return;
+        }
+        out.push(b | 0x80);
+    }
+}
+fn pb_len(field: u64, body: &[u8]) -> Vec<u8> {
+    let mut out = vec![];
+    pb_varint(&mut out, field << 3 | 2);
+    pb_varint(&mut out, body.len() as u64);
+    out.extend_from_slice(body);
+    out
+}
+fn rpc_frame(body: &[u8]) -> Vec<u8> {
+    let mut v = (body.len() as u32).to_le_bytes().to_vec();
+    v.extend_from_slice(body);
+    v
+}
+
+/// What a scripted peer has seen: (block number, number of announcements acknowledged when the request arrived).
+type Inbox = Arc<Mutex<Vec<(u64, usize)>>>;
+
+struct Scripted {
+    push: zksync_consensus_network::verif::MuxQueue,
+    inbox: Inbox,
+    acked: Arc<Mutex<usize>>,
+    /// Requests held back (not yet answered), with their sub-streams.
+    held: Arc<Mutex<Vec<(u64, zksync_consensus_network::verif::MuxStream)>>>,
+}
+
+impl Scripted {
+    /// Announces `first..=last` and waits for the node's acknowledgement (the RPC response).
+    async fn announce(&self, ctx: &ctx::Ctx, setup: &zksync_consensus_roles::validator::testonly::Setup, first: u64, last: u64) -> Result<(), String> {
+        let qc = match &setup.blocks[(last - setup.first_block().0) as usize] {
+            zksync_consensus_roles::validator::Block::FinalV2(b) => b.justification.clone(),
+            _ => return Err("harness: pre-genesis block in the chain material".into()),
+        };
+        let mut state = vec![0x08];
+        pb_varint(&mut state, first);
+        state.extend(pb_len(2, &pb_len(3, &zksync_protobuf::encode(&qc))));
+        let req = pb_len(3, &state);
+        let mut s = self.push.open(ctx).await.map_err(|_| "INFRA: opening a push_block_store_state call".to_string())?;
+        s.write_all(ctx, &rpc_frame(&req)).await.map_err(|e| format!("INFRA: announce: {e:#}"))?;
+        s.flush(ctx).await.map_err(|e| format!("INFRA: announce: {e:#}"))?;
+        s.close_write();
+        let resp = tokio::time::timeout(std::time::Duration::from_secs(10), s.read_exact(ctx, 4)).await.map_err(|_| "INFRA: the node did not acknowledge an announcement within 10 s".to_string())?;
+        match resp {
+            Ok(h) if h.len() == 4 => {
+                *self.acked.lock().unwrap() += 1;
+                Ok(())
+            }
+            other => Err(format!("the node refused a well-formed block range announcement {first}..={last}: {other:?}")),
+        }
+    }
+}
+
+pub fn check_peer(case: &PeerCase, st: &mut Stats) -> Result<(), String> {
+    use rand::SeedableRng as _;
+    use zksync_consensus_engine::{testonly::in_memory, EngineManager};
+    use zksync_consensus_network::verif::{self as hook, gossip::Node, Mux, MuxConfig, NoiseTcp, Wire};
+    use zksync_consensus_roles::validator;
+    let rt = tokio::runtime::Builder::new_current_thread().enable_all().build().unwrap();
+    rt.block_on(async {
+        let ctx = &ctx::root();
+        let rng = &mut rand::rngs::StdRng::seed_from_u64(12);
+        let mut setup = validator::testonly::Setup::new_without_pregenesis(rng, 1);
+        setup.push_blocks_v2(rng, case.blocks);
+        let setup = &setup;
+        let first = setup.first_block().0;
+        let last = first + case.blocks as u64 - 1;
+        let nk = gen::node_keys();
+        let table = hook::rpc_table();
+        let cap = |name: &str| table.iter().find(|t| t.0 == name).map(|t| (t.1, t.2)).unwrap();
+        let (get_cap, get_inflight) = cap("get_block");
+        let (push_cap, _) = cap("push_block_store_state");
+        let st2 = &mut *st;
+        let res: Result<(), String> = scope::run!(ctx, |ctx, s| async move {
+            let st = st2;
+            let eng_a = in_memory::Engine::new_random(setup, validator::BlockNumber(first));
+            let (mgr_a, run_a) = EngineManager::new(ctx, Box::new(eng_a), zksync_concurrency::time::Duration::seconds(60)).await.map_err(|e| format!("INFRA: EngineManager::new: {e:?}"))?;
+            s.spawn_bg(async { run_a.run(ctx).await.map_err(|e| format!("INFRA: engine runner: {e:#}")) });
+            let mut cfg_a = crate::c12::gossip_cfg(&nk[9]);
+            cfg_a.rpc.get_block_timeout = None;
+            cfg_a.rpc.get_block_rate = zksync_concurrency::limiter::Rate::INF;
+            cfg_a.rpc.push_block_store_state_rate = zksync_concurrency::limiter::Rate::INF;
+            cfg_a.max_block_queue_size = case.queue;
+            let a = Arc::new(Node::new(cfg_a, mgr_a.clone(), Some(setup.epoch)));
+            {
+                let a = a.clone();
+                s.spawn_bg(async move {
+                    a.run_block_fetcher(ctx).await;
+                    Ok(())
+                });
+            }
+            let genesis = setup.genesis.hash();
+            // connects a scripted peer with identity `key`; `auto`: answers every request at once with the certified block
+            let connect = |key: usize, auto: bool| {
+                let a = a.clone();
+                async move {
+                    let mut l = hook::TcpListener::bind().await.map_err(|e| format!("INFRA: bind: {e:#}"))?;
+                    let addr = l.addr();
+                    let dial = async { NoiseTcp::preface_connect(ctx, addr, false).await.map_err(|e| format!("INFRA: preface_connect: {e:?}")) };
+                    let acc = async {
+                        let tcp = l.accept(ctx).await.map_err(|e| format!("INFRA: accept: {e:?}"))?;
+                        NoiseTcp::preface_accept(ctx, tcp).await.map_err(|e| format!("INFRA: preface: {e:?}")).map(|x| x.0)
+                    };
+                    let (mine, theirs) = tokio::join!(dial, acc);
+                    let (mut mine, theirs) = (mine?, theirs?);
+                    s.spawn_bg(async move {
+                        let _ = a.run_inbound_stream(ctx, theirs).await;
+                        Ok(())
+                    });
+                    let pcfg = crate::c12::gossip_cfg(&nk[key]);
+                    hook::gossip::handshake_outbound(ctx, &pcfg, genesis, &mut mine, &nk[9].public()).await.map_err(|e| format!("INFRA: handshake of a scripted peer: {e}"))?;
+                    let mut m = Mux::new(MuxConfig::rpc());
+                    let push = m.accept(ctx, push_cap, 1, zksync_concurrency::limiter::Rate::INF);
+                    let serve = m.connect(ctx, get_cap, get_inflight, zksync_concurrency::limiter::Rate::INF);
+                    s.spawn_bg(async move {
+                        let _ = m.run(ctx, mine).await;
+                        Ok(())
+                    });
+                    let peer = Arc::new(Scripted { push, inbox: Arc::default(), acked: Arc::default(), held: Arc::default() });
+                    let p = peer.clone();
+                    s.spawn_bg(async move {
+                        // the get_block server of the scripted peer
+                        while let Ok(mut call) = serve.open(ctx).await {
+                            let Ok(req) = call.recv_msg(ctx, Wire::GetBlockReq, 1024).await else { continue };
+                            let mut n = 0u64;
+                            for (i, b) in req.iter().skip(1).enumerate() {
+                                n |= ((*b & 0x7f) as u64) << (7 * i);
+                            }
+                            let acked = *p.acked.lock().unwrap();
+                            p.inbox.lock().unwrap().push((n, acked));
+                            if auto {
+                                if let Some(b) = setup.blocks.get((n.wrapping_sub(first)) as usize) {
+                                    let validator::Block::FinalV2(fb) = b else { continue };
+                                    let _ = call.write_all(ctx, &rpc_frame(&pb_len(3, &zksync_protobuf::encode(fb)))).await;
+                                    let _ = call.flush(ctx).await;
+                                }
+                                call.close_write();
+                            } else {
+                                p.held.lock().unwrap().push((n, call));
+                            }
+                        }
+                        Ok(())
+                    });
+                    Ok::<_, String>(peer)
+                }
+            };
+            async fn until(mut done: impl FnMut() -> bool, what: &str) -> Result<(), String> {
+                for _ in 0..5000 {
+                    if done() {
+                        return Ok(());
+                    }
+                    tokio::time::sleep(std::time::Duration::from_millis(2)).await;
+                }
+                Err(format!("INFRA: {what} did not happen within 10 s"))
+            }
+            // 1. the first peer announces everything; the node asks for as many blocks as its queue allows, lowest first
+            let p1 = connect(0, false).await?;
+            p1.announce(ctx, setup, first, last).await?;
+            let want = case.queue.min(case.blocks);
+            until(|| p1.inbox.lock().unwrap().len() >= want, "the node asking an announcing peer for its first missing blocks").await?;
+            // nothing else can be in flight: the node asks for at most `queue` blocks beyond what it stores
+            for _ in 0..50 {
+                tokio::task::yield_now().await;
+            }
+            {
+                let mut got: Vec<u64> = p1.inbox.lock().unwrap().iter().map(|x| x.0).collect();
+                got.sort();
+                let expect: Vec<u64> = (first..first + want as u64).collect();
+                if got != expect {
+                    return Err(format!("the node stores nothing and may ask for {want} blocks at once; the only peer announced {first}..={last}; it was asked for {got:?} instead of the lowest missing blocks {expect:?}"));
+                }
+            }
+            // 2. the peer prunes: same head, later first block; the node acknowledges
+            let pruned_first = first + case.prune_to as u64;
+            p1.announce(ctx, setup, pruned_first, last).await?;
+            // 3. the requests received before the pruning are answered (the blocks were still on their way)
+            let mut held = std::mem::take(&mut *p1.held.lock().unwrap());
+            if case.reverse {
+                held.reverse();
+            }
+            for (n, mut call) in held {
+                let validator::Block::FinalV2(fb) = &setup.blocks[(n - first) as usize] else { continue };
+                let _ = call.write_all(ctx, &rpc_frame(&pb_len(3, &zksync_protobuf::encode(fb)))).await;
+                let _ = call.flush(ctx).await;
+                call.close_write();
+            }
+            // 4. a second peer that stores everything and answers at once
+            let p2 = connect(1, true).await?;
+            p2.announce(ctx, setup, first, last).await?;
+            // the first peer keeps serving what it announced
+            {
+                let p1 = p1.clone();
+                s.spawn_bg(async move {
+                    loop {
+                        let held = std::mem::take(&mut *p1.held.lock().unwrap());
+                        for (n, mut call) in held {
+                            if n >= pruned_first && n <= last {
+                                if let validator::Block::FinalV2(fb) = &setup.blocks[(n - first) as usize] {
+                                    let _ = call.write_all(ctx, &rpc_frame(&pb_len(3, &zksync_protobuf::encode(fb)))).await;
+                                    let _ = call.flush(ctx).await;
+                                }
+                            }
+                            call.close_write();
+                        }
+                        if ctx.sleep(zksync_concurrency::time::Duration::milliseconds(2)).await.is_err() {
+                            return Ok(());
+                        }
+                    }
+                });
+            }
+            until(|| mgr_a.queued().next().0 > last, "fetching every block once a peer that stores everything is connected").await?;
+            // oracle: after the node had acknowledged the pruned range, the first peer was never asked for a pruned block
+            let inbox1 = p1.inbox.lock().unwrap().clone();
+            let needed_pruned_block_afterwards = (first + want as u64) < pruned_first;
+            st.class(if needed_pruned_block_afterwards { "pruned_block_needed_after_the_pruning" } else { "pruned_blocks_already_requested" });
+            if needed_pruned_block_afterwards {
+                st.nontrivial(common::fingerprint(case));
+            }
+            st.sample(|| serde_json::json!({"case": case, "first_peer_was_asked_for": inbox1, "second_peer_was_asked_for": p2.inbox.lock().unwrap().clone()}));
+            for (n, acked) in &inbox1 {
+                if *acked >= 2 && (*n < pruned_first || *n > last) {
+                    return Err(format!(
+                        "a peer announced blocks {first}..={last}, then (having pruned) {pruned_first}..={last}; after the node had acknowledged the second announcement it asked that peer for block {n}, which the peer no longer announces"
+                    ));
+                }
+                if *n < first || *n > last {
+                    return Err(format!("a peer that announced {first}..={last} was asked for block {n}"));
+                }
+            }
+            for (n, _) in p2.inbox.lock().unwrap().iter() {
+                if *n < first || *n > last {
+                    return Err(format!("a peer that announced {first}..={last} was asked for block {n}"));
+                }
+            }
+            for b in &setup.blocks {
+                let got = mgr_a.get_block(ctx, b.number()).await.map_err(|e| format!("INFRA: get_block: {e:?}"))?;
+                if got.as_ref() != Some(b) {
+                    return Err(format!("block {} stored by the node differs from the certified block", b.number().0));
+                }
+            }
+            Ok(())
+        })
+        .await;
+        res
+    })
+}
+
 pub fn main(env: &Env) -> i32 {
     if let Mode::Replay(path) = env.mode() {
         let (part, case) = Env::read_replay(&path);
         if part == "node" {
             return env.finish_replay(&path, common::replay_case::<NodeCase>(case, check_node));
+        }
+        if part == "scripted_peer" {
+            return env.finish_replay(&path, common::replay_case::<PeerCase>(case, check_peer));
         }
         if part == "queue_threads" {
             return env.finish_replay(&path, common::replay_case::<QueueThreadsCase>(case, check_queue_threads));
@@ -716,6 +1000,17 @@ pub fn main(env: &Env) -> i32 {
         PartOpts { cases: env.tier.pick(400, 8_000), max_shrink_iters: 60, samples: 2 },
         || Choices::strategy(20).prop_map(|mut ch| gen_node(&mut ch)),
         check_node,
+    ));
+    parts.extend(common::run_regress::<PeerCase>(env, "scripted_peer", check_peer));
+    parts.push(run_proptest(
+        env,
+        "scripted_peer",
+        "a real node (gossip state, block fetcher, per-connection handlers; max_block_queue_size 1-3) with an empty store and SCRIPTED peers over loopback TCP: the harness performs the real preface / noise / handshake and runs a real multiplexer carrying hand-made RPC frames, so it sees the node's acknowledgement of every announcement and every get_block request on arrival. \
+         Script: the first peer announces 3-8 blocks and holds the node's requests; it then announces a pruned range (same head, later first block) and, once the node has acknowledged that, answers the held requests (in or against order); a second peer storing everything connects. \
+         Oracle: the node first asks for exactly its lowest missing blocks; after the acknowledgement the first peer is never asked for a block below its new first block (the node needs such a block only after the pruning, because it asks for at most `queue` blocks at once); no peer is ever asked outside its announced range; every block is fetched and equals the certified one. Non-trivial = a pruned block is needed after the pruning",
+        PartOpts { cases: env.tier.pick(240, 6_000), max_shrink_iters: 40, samples: 2 },
+        || Choices::strategy(20).prop_map(|mut ch| gen_peer(&mut ch)),
+        check_peer,
     ));
     env.finish(
         "exploration",
